@@ -4,32 +4,38 @@ from concurrent.futures import ThreadPoolExecutor
 import vcheck
 from vcheck import Stream, sx_parse, sx_str
 from gen.stategen import *
-from gen import stepgen, proggen, boundgen
+from gen import stepgen, proggen, boundgen, randgen
 
 PROPERTY = "C01"
-PROPS_VO = "Props/C02"   # TEMPORARY until Props/C01.v exists
+PROPS_VO = "Props/C01"
 AXIOMS_OK = []
 
-ALLOC_BOUND, NBR_BOUND, SIZE_BOUND, STEP_BOUND, DEPTH_BOUND = 100000, 1000, 200000, 10000, 5000      # = Suites/SNoPanic.v
+ALLOC_BOUND, NBR_BOUND, SIZE_BOUND, STEP_BOUND, DEPTH_BOUND, RAND_POINTS_BOUND = 100000, 1000, 200000, 10000, 5000, 1000      # = Suites/SNoPanic.v
 PARTIAL = ("native stack exhaustion by recursion over very deeply nested items (Item::size, Display, Drop, rec_push), allocation failure and "
            "process aborts cannot be exhibited by the Gallina model; they are covered only by stream (d) inside the envelope")
 ASSUMPTIONS = [
-    "resource envelope (decided on the model by suite nopanic.env, Suites/SNoPanic.v, before a case reaches the implementation): "
+    "resource envelope of the correspondence run (decided on the model by suite nopanic.env, Suites/SNoPanic.v, before a case reaches the implementation): "
     "the INTEGER operand of an instruction that allocates by operand (BOOLVECTOR/INTVECTOR/FLOATVECTOR .ONES .ZEROS .RAND, FLOATVECTOR.SINE) is <= %d; "
-    "the four INTEGER operands of LIST.NEIGHBOR* are <= %d; the size measure of every visited state (points of CODE, EXEC and the bindings "
+    "the four INTEGER operands of LIST.NEIGHBOR* are <= %d; the point limit of CODE.RAND, min(|operand|, |max_points_in_random_expressions|), is <= %d; "
+    "the size measure of every visited state (points of CODE, EXEC and the bindings "
     "weighted by name characters and vector-literal elements, NAME characters, vector elements, stack depths) is <= %d; "
     "no item on CODE, EXEC or in the bindings is nested deeper than %d (pushr's Clone / Drop / Item::size / Display recurse on the native stack: with the "
-    "default 8 MiB main-thread stack a nesting of 20000 aborts the process, 5000 does not — observed by stream (d)); "
-    "at most %d interpreter steps per case (eval_push_limit <= %d). C15 covers the envelope itself" % (ALLOC_BOUND, NBR_BOUND, SIZE_BOUND, DEPTH_BOUND, STEP_BOUND, STEP_BOUND),
+    "default 8 MiB main-thread stack a nesting of 20000 aborts the process, 5000 does not - observed with suite deepnest); "
+    "at most %d interpreter steps per case (eval_push_limit <= %d). C15 covers the envelope itself"
+    % (ALLOC_BOUND, NBR_BOUND, RAND_POINTS_BOUND, SIZE_BOUND, DEPTH_BOUND, STEP_BOUND, STEP_BOUND),
+    "hypotheses of the theorems: wf_state (typing of the state: every i32-typed value is an i32, INDEX fields are usize; no length bounds), envelope (the top CODE item has "
+    "<= i32::MAX points; only CODE.EXTRACT and CODE.NTH depend on it), stays_in_envelope for k steps / the run loop",
+    "facts of IEEE binary32 arithmetic assumed of the abstract FloatOps (fo_typed: `x as i32` is an i32; fo_nbits: BOOLVECTOR.RAND's bit count lies in 0..=size); "
+    "evaluated on observed cases by the C13 checker",
     "EXEC.CMD pointed at a harmless target: the generated cases never give EXEC.CMD its n+1 NAME operands, except a few thorough-tier cases "
     "whose names all spell the command `true`; the spawned process itself is outside the model",
     PARTIAL,
-    "stream (c) (programs of pushr's own CodeGenerator::random_code) draws from thread_rng: it is not reproducible from the seed; the text of "
-    "every panicking program is part of the result. Its instruction list excludes EXEC.CMD and the ALLOCATING names (random i32 operands reach them)",
-    "the RANDOM instructions and LIST.NEIGHBOR* are exercised by streams (a)/(b) only once they are part of the model registry (names (0) of the "
-    "model decides); until then they are covered by stream (c) alone",
-    "programs of the exact-compare stream (b) do not contain the six HashMap-ordered GRAPH instructions (%s): their results are unordered; "
-    "they are single-stepped in (a) with <= 1 element results and run inside programs in (c) and (d)" % ", ".join(sorted(stepgen.HASH_ORDERED)),
+    "the random number generator is an oracle (tape of the world, Model/RandomGen.v); the theorems hold for every tape. The implementation draws from thread_rng and cannot be "
+    "seeded: cases with the nine RAND instructions are compared through suite runnp (returned normally / panicked) instead of the full final state",
+    "stream (c) (programs of pushr's own CodeGenerator::random_code) is not reproducible from the seed; the text of every panicking program is part of the result and is "
+    "re-read as a deterministic `run` case. Its instruction list excludes EXEC.CMD and the ALLOCATING names (random i32 operands reach them)",
+    "programs of the exact-compare stream (b) contain neither the RAND instructions nor the six HashMap-ordered GRAPH instructions (%s): their results are not a function "
+    "of the case; they are single-stepped in (a) and run inside programs in (b-rand) (suite runnp), (c) and (d)" % ", ".join(sorted(stepgen.HASH_ORDERED)),
 ]
 
 _dec = lambda s: ["".join(chr(c) for c in x) for x in sx_parse(s)[1]]
@@ -61,9 +67,14 @@ def cfg(limit, cap):
 
 
 # ------------------------------------------------------------------------------------------------ (a)
+POOLS_TEXT = ("boundary operand tuples: full product of the two topmost elements of every stack over the pools i32 {MIN,MIN+1,-2..2,MAX-1,MAX}, "
+              "f32 {+-0,+-1,+-0.5,+-inf,NaN,subnormal,MAX,2^31,1e20}, vectors empty/length 1/unequal, code atoms of every kind/empty/nested lists; "
+              "stack depths 0..4 jointly and one stack short; top INTEGER at a length +-1")
+
+
 def stream_a(rng, tier, impl, modelled):
-    sweep = [n for n in impl if n in modelled and n not in stepgen.UNSAFE]
-    safe = [n for n in impl if n in modelled and n not in stepgen.UNSAFE and n not in stepgen.ALLOCATING]
+    sweep = [n for n in impl if n in modelled and n not in stepgen.UNSAFE and n not in stepgen.RANDOM]
+    safe = [n for n in impl if n in modelled and n not in stepgen.UNSAFE and n not in stepgen.RANDOM and n not in stepgen.ALLOCATING]
     skipped = [n for n in impl if n not in modelled]
     dense = tier != "quick"
     nrand = {"quick": 20, "thorough": 200, "search": 120}[tier]
@@ -76,32 +87,48 @@ def stream_a(rng, tier, impl, modelled):
         cases += boundgen.cmd_cases(rng, harmless=(tier == "thorough"))
     n0 = len(cases)
     cases, outside, unres = env_filter(cases)
-    note = ("single-step sweep: %d modelled names x (boundary operand tuples: full product of the two topmost elements of every stack over the pools "
-            "i32 {MIN,MIN+1,-2..2,MAX-1,MAX}, f32 {+-0,+-1,+-0.5,+-inf,NaN,subnormal,MAX,2^31,1e20}, vectors empty/length 1/unequal, code atoms of every kind/"
-            "empty/nested lists; stack depths 0..4 jointly and one stack short; top INTEGER at a length +-1) + %d random states per name (stepgen.step_case), "
-            "both profiles%s; EXEC.CMD only without its NAME operands%s. generated %d, outside the envelope (dropped) %d, libm unresolved (dropped) %d. "
-            "not in the model registry yet (skipped): %s"
-            % (len(sweep), nrand, "" if dense else " (quick: the product alternates the profile)",
+    note = ("single-step sweep: %d deterministic modelled names x (%s) + %d random states per name (stepgen.step_case), "
+            "both profiles%s; allocation sizes tamed (INTEGER pool <= 300, LIST.NEIGHBOR* <= 40); EXEC.CMD only without its NAME operands%s. "
+            "generated %d, outside the envelope (dropped) %d, libm unresolved (dropped) %d. not in the model registry (skipped): %s"
+            % (len(sweep), POOLS_TEXT, nrand, "" if dense else " (quick: the product alternates the profile)",
                " + 4 harmless `true` cases" if tier == "thorough" else "", n0, outside, unres, ", ".join(skipped) or "none"))
     return Stream("a:single-step", "run", "nopanic.check", cases, note)
 
 
+def stream_a_rand(rng, tier, impl, modelled):
+    sweep = [n for n in impl if n in modelled and n in stepgen.RANDOM]
+    safe = [n for n in impl if n in modelled and n not in stepgen.UNSAFE and n not in stepgen.ALLOCATING and n not in boundgen.VEC_RAND]
+    dense = tier != "quick"
+    nrand = {"quick": 150, "thorough": 1500, "search": 600}[tier]
+    cases = []
+    for nm in sweep:
+        cases += boundgen.cases(rng, nm, impl, safe, dense=dense)
+        for _ in range(nrand):
+            cases.append(boundgen.rand_step_case(rng, nm, impl, safe))
+    n0 = len(cases)
+    cases, outside, unres = env_filter(cases)
+    note = ("single-step sweep of the %d RAND instructions: the same boundary tuples as (a) + %d random states per name with boundary configurations "
+            "(random-number bounds equal / reversed / extreme / NaN, max_points_in_random_expressions 0, 1, 2, negative, extreme), a 48-element tape for the model; "
+            "compared through suite runnp (returned normally / panicked): the implementation draws from thread_rng. "
+            "generated %d, outside the envelope (dropped) %d, libm unresolved (dropped) %d" % (len(sweep), nrand, n0, outside, unres))
+    return Stream("a-rand:single-step", "runnp", "nopanic.check", cases, note)
+
+
 # ------------------------------------------------------------------------------------------------ (b)
-def program_state(rng, names, hash_ordered_free=True):
+def program_state(rng, names):
     st = stepgen.rand_state(rng, names, names, maxdepth=3)
-    world = (1, ())
     if rng.random() < 0.6:
         gs, nn = stepgen.rand_graphs(rng)
         st["graph"] = [g.wire() for g in gs]
-        world = (nn, ())
     else:
-        world = (stepgen.next_base(9) + 1, ())
-    return st, world
+        nn = stepgen.next_base(9) + 1
+    return st, nn
 
 
-def program_cases(rng, names, n, fixed=True):
+def program_cases(rng, names, n, fixed=True, limits=None, ks=None, tapes=False):
     """`run` cases: generated programs (<= 60 points per top-level item) from random states, run (mode 1) or single-stepped (mode 0)"""
-    limits = [0, 1, 2, 5, 17, 40, 100, 100, 300, 300, 1000]
+    limits = limits or [0, 1, 2, 5, 17, 40, 100, 100, 300, 300, 1000]
+    ks = ks or [1, 2, 3, 10, 30, 100, 250]
     caps = [0, 1, 2, 8, 500, 500, 500]
     nameset = set(names)
     cases = []
@@ -113,31 +140,45 @@ def program_cases(rng, names, n, fixed=True):
                     w = (stepgen.next_base(lim + 16) + 1, ())
                     cases.append(case_run(rng.randrange(2), state(exec=prog, int=[4], cfg=cfg(lim, 500)), mode, lim if mode == 0 else 0, world=w))
     for _ in range(n):
-        st, world = program_state(rng, names)
+        st, nn = program_state(rng, names)
         st["exec"] = proggen.rand_program(rng, names, 61)
         if rng.random() < 0.5:
             st = stepgen.tame_ints(st)
         lim = rng.choice(limits)
         st["cfg"] = cfg(lim, rng.choice(caps))
         mode = rng.randrange(2)
-        k = rng.choice([1, 2, 3, 10, 30, 100, 250]) if mode == 0 else 0
+        k = rng.choice(ks) if mode == 0 else 0
         stepgen.next_base(max(lim, k) + 16)            # node ids the steps may issue
-        cases.append(case_run(rng.randrange(2), state(**st), mode, k, world=world))
+        cases.append(case_run(rng.randrange(2), state(**st), mode, k, world=(nn, randgen.tape(rng, 64) if tapes else ())))
     return cases
 
 
 def stream_b(rng, tier, impl, modelled):
-    names = sorted(n for n in modelled if n not in stepgen.UNSAFE and n not in stepgen.HASH_ORDERED)
+    names = sorted(n for n in modelled if n not in stepgen.UNSAFE and n not in stepgen.HASH_ORDERED and n not in stepgen.RANDOM)
     n = {"quick": 8000, "thorough": 40000, "search": 20000}[tier]
     cases = program_cases(rng, names, n)
     n0 = len(cases)
     cases, outside, unres = env_filter(cases)
     _STASH["b"] = cases
-    note = ("generated programs (gen/proggen.py grammar over the %d modelled names minus EXEC.CMD and the HashMap-ordered GRAPH names; 1-3 top-level items of "
+    note = ("generated programs (gen/proggen.py grammar over the %d modelled names minus EXEC.CMD, the RAND and the HashMap-ordered GRAPH names; 1-3 top-level items of "
             "<= 60 points) + the DIVERGING/TERMINATING/EXPLODING texts, from random initial states (stepgen.rand_state, half of them with extreme INTEGERs, "
             "random GRAPH stacks), run by PushInterpreter::run (eval_push_limit in 0..1000, growth_cap in 0..500) or single-stepped k <= 250 steps, random profile. "
             "generated %d, outside the envelope (dropped before reaching implementation or model) %d, libm unresolved (dropped) %d" % (len(names), n0, outside, unres))
     return Stream("b:programs", "run", "nopanic.check", cases, note)
+
+
+def stream_b_rand(rng, tier, impl, modelled):
+    names = sorted(n for n in modelled if n not in stepgen.UNSAFE)
+    n = {"quick": 3000, "thorough": 20000, "search": 8000}[tier]
+    cases = program_cases(rng, names, n, fixed=False, limits=[0, 1, 2, 5, 17, 40, 60], ks=[1, 2, 3, 10, 30, 60], tapes=True)
+    n0 = len(cases)
+    cases, outside, unres = env_filter(cases)
+    _STASH["b-rand"] = cases
+    note = ("generated programs over ALL %d modelled names minus EXEC.CMD (with the RAND and the HashMap-ordered GRAPH instructions), at most 61 steps (a short horizon: "
+            "the envelope decision follows the model's draws, the implementation's own draws may take another path), a 64-element tape for the model; "
+            "compared through suite runnp (returned normally / panicked). generated %d, outside the envelope (dropped) %d, libm unresolved (dropped) %d"
+            % (len(names), n0, outside, unres))
+    return Stream("b-rand:programs", "runnp", "nopanic.check", cases, note)
 
 
 # ------------------------------------------------------------------------------------------------ (c)
@@ -158,7 +199,7 @@ def stream_c(rng, tier, impl, modelled):
 def streams(seed, tier):
     rng = random.Random(seed)
     impl, modelled = registry()
-    out = [stream_a(rng, tier, impl, modelled), stream_b(rng, tier, impl, modelled), stream_c(rng, tier, impl, modelled)]
+    out = [f(rng, tier, impl, modelled) for f in (stream_a, stream_a_rand, stream_b, stream_b_rand, stream_c)]
     if tier == "thorough":
         _STASH["d_extra"] = supervised_only_cases(rng, impl, modelled)
     return out
@@ -185,7 +226,7 @@ def with_marker(case_text, marker_item, text):
 def supervised_only_cases(rng, impl, modelled):
     """cases that only stream (d) runs (implementation only): programs with the HashMap-ordered GRAPH names, and
     deep-but-inside-envelope nesting (recursion in Item::size / Display / Clone / Drop / equality)"""
-    names = sorted(n for n in modelled if n not in stepgen.UNSAFE)
+    names = sorted(n for n in modelled if n not in stepgen.UNSAFE and n not in stepgen.RANDOM)
     cases = program_cases(rng, names, 3000, fixed=False)
     cases, outside, unres = env_filter(cases)
     MARK = Z(1234567891)
@@ -301,8 +342,8 @@ def extra(ctx):
         return
     # stream (d): aborts, native stack overflow and OOM are invisible to catch_unwind and to the model
     ex = _STASH.get("d_extra") or {"programs": [], "deep_run": [], "deep_nest": [], "outside": 0}
-    supervise(ctx, "d:supervised-programs", "run", list(_STASH.get("b", [])) + ex["programs"],
-              "every program case of stream (b) plus %d program cases that also use the HashMap-ordered GRAPH names (%d more dropped outside the envelope), "
+    supervise(ctx, "d:supervised-programs", "run", list(_STASH.get("b", [])) + list(_STASH.get("b-rand", [])) + ex["programs"],
+              "every program case of streams (b) and (b-rand) plus %d deterministic program cases that also use the HashMap-ordered GRAPH names (%d more dropped outside the envelope), "
               "each in its own child process (RLIMIT_AS 2 GiB, 20 s): a missing result, (1) or a non-zero exit is a violation" % (len(ex["programs"]), ex["outside"]))
     supervise(ctx, "d:supervised-deep-nesting-run", "run", ex["deep_run"],
               "items nested 1000 / 2000 deep on CODE and EXEC under %d programs that recurse over them (CODE.SIZE, CODE.=, CODE.CONTAINS, CODE.EXTRACT, CODE.INSERT, "
@@ -317,12 +358,13 @@ TECHNIQUE = ("Coq proof that no instruction, step, k-step execution or bounded r
              "systematic boundary single-step sweep of every modelled instruction, generated programs filtered through a model-side envelope decision, "
              "programs of pushr's own random code generator, and (thorough) every program again in a supervised child process")
 DESIGN_REF = "DESIGN.md section 6.C01"
-LEVEL_TEXT = ("THEOREMS: <filled in by the proof side>\n"
+LEVEL_TEXT = ("THEOREMS: <filled in by the proof side> Props/C01.v: C01_instr_no_panic, C01_instr_no_panic_outside_envelope, C01_base_instr_no_panic, C01_wf_preserved, C01_step_no_panic, "
+              "C01_step_wf_preserved, C01_steps_no_panic, C01_run_no_panic, C01_envelope_from_size_bound (closed under the global context).\n"
               "Tie to the code: (a) every instruction of the model registry is single-stepped on boundary operand tuples (full product of the two topmost elements of every stack over the boundary pools, "
-              "stack depths 0..4, one stack short, INTEGER operands at a length +-1) and random states, both profiles; (b) grammar-generated programs of up to 60 points per item from random initial states, run by "
+              "stack depths 0..4, one stack short, INTEGER operands at a length +-1) and random states, both profiles (the nine RAND instructions through suite runnp: normal return only, the implementation draws from thread_rng); (b) grammar-generated programs of up to 60 points per item from random initial states, run by "
               "PushInterpreter::run and single-stepped, after suite nopanic.env decided on the model that the case stays inside the envelope; in (a) and (b) the implementation's result is compared with the model's "
               "(model Ok vs implementation panic is a disagreement) and the predicate 'returned normally' is evaluated on the implementation's result; (c) programs drawn from CodeGenerator::random_code executed "
               "under catch_unwind (implementation only; the model side states 'no panics'); (d, thorough) every program of (b), programs with the HashMap-ordered GRAPH instructions and 1000-5000-deep nestings, "
               "each in its own child process with a 2 GiB address space and 20 s.")
-LEVEL_NOTE = ("Trusted: Coq kernel, extraction, driver, harness, generators. PARTIAL: " + PARTIAL + ". The envelope bounds are those of Suites/SNoPanic.v (ALLOC_BOUND %d, NBR_BOUND %d, SIZE_BOUND %d, STEP_BOUND %d, DEPTH_BOUND %d); "
-              "EXEC.CMD is assumed to be pointed at a harmless target." % (ALLOC_BOUND, NBR_BOUND, SIZE_BOUND, STEP_BOUND, DEPTH_BOUND))
+LEVEL_NOTE = ("Trusted: Coq kernel, extraction, driver, harness, generators. PARTIAL: " + PARTIAL + ". The envelope bounds are those of Suites/SNoPanic.v (ALLOC_BOUND %d, NBR_BOUND %d, RAND_POINTS_BOUND %d, SIZE_BOUND %d, STEP_BOUND %d, DEPTH_BOUND %d); "
+              "EXEC.CMD is assumed to be pointed at a harmless target." % (ALLOC_BOUND, NBR_BOUND, RAND_POINTS_BOUND, SIZE_BOUND, STEP_BOUND, DEPTH_BOUND))
